@@ -151,6 +151,12 @@ def run_c11(ctx):
     asan_env["ASAN_OPTIONS"] = "detect_leaks=0:halt_on_error=1:abort_on_error=0:exitcode=77:allocator_may_return_null=1"
     scale = "100" if ctx.tier == "thorough" else "40"
     ctx.run_sanitized(ba, "C11", extra_args=["--scale", scale], env_extra=asan_env, tag="C11-lockstep-asan", kind="asan", timeout=7200)
+    # the stateless configuration has its own constructors: lockstep of FFI and Rust API there (native + ASan)
+    try:
+        bs = ctx.build("stateless")
+        ctx.run_sanitized(bs, "C11S", env_extra=env, tag="C11-stateless-lockstep", kind="plain")
+    except BuildFailed as e:
+        ctx.inconclusive.append("stateless build failed: %s" % e.log[-800:])
     if ctx.tier == "thorough":
         vg = ["valgrind", "--tool=memcheck", "--leak-check=no", "--error-exitcode=78", "--track-origins=no", "-q"]
         ctx.run_sanitized(b, "C11", extra_args=["--scale", "6", "--no-proofs"], env_extra={"RAYON_NUM_THREADS": "1"},
